@@ -570,36 +570,53 @@ theorem server_verifySortition_lenient_counterexample : ¬ server_verifySortitio
 
 /-! ## 7a. the live prover path: the SortitionManager's credential cache is transparent -/
 
-/-- Whatever the order of `isProposer` / `isValidator` queries and `ClearStepView` calls (queries for round r+1 before
-    its clear, stale queries for r after it, repeats, any steps and indices), the credential handed out for
-    (round, index, step) is one computed for exactly these inputs (rounds below 2^64, the key's `round.Uint64()`). -/
+/-- Whatever the order of `isProposer` / `isValidator` queries, `ClearStepView` calls (queries for round r+1 before its
+    clear, stale queries for r after it, repeats, any steps and indices) and head rewinds onto another branch (each
+    notified, as the Server does, by a `ClearStepView` for a round other than the manager's), the credential handed out
+    for (round, index, step) was computed for exactly these inputs ON THE BRANCH THE CHAIN RESOLVES NOW
+    (rounds below 2^64, the key's `round.Uint64()`). -/
 theorem cache_transparent (ops : List MOp)
-    (hr : ∀ k st, MOp.query k st ∈ ops → k.round < 2 ^ 64) :
-    ∀ asked origin, (asked, origin) ∈ runOps Mgr.init ops → origin = asked := by
+    (hr : ∀ k st, MOp.query k st ∈ ops → k.round < 2 ^ 64)
+    (hw : rewindsMove Mgr.init ops) :
+    ∀ asked epoch origin, (asked, epoch, origin) ∈ runOps Mgr.init ops → origin = ⟨asked, epoch⟩ := by
   have gen : ∀ (ops : List MOp) (m : Mgr), m.Inv → (∀ k st, MOp.query k st ∈ ops → k.round < 2 ^ 64) →
-      ∀ asked origin, (asked, origin) ∈ runOps m ops → origin = asked := by
+      rewindsMove m ops →
+      ∀ asked epoch origin, (asked, epoch, origin) ∈ runOps m ops → origin = ⟨asked, epoch⟩ := by
     intro ops
     induction ops with
-    | nil => intro m _ _ a o h; simp [runOps] at h
+    | nil => intro m _ _ _ a ep o h; simp [runOps] at h
     | cons op rest ih =>
-      intro m hinv hr a o h
+      intro m hinv hr hw a ep o h
       cases op with
       | query k st =>
         have hk := hr k st (List.mem_cons_self ..)
         have hs := m.query_spec hinv k hk st
         simp only [runOps, List.mem_cons, Prod.mk.injEq] at h
-        rcases h with ⟨rfl, rfl⟩ | h
+        rcases h with ⟨rfl, rfl, rfl⟩ | h
         · exact hs.1
-        · exact ih _ hs.2 (fun k' st' hm => hr k' st' (List.mem_cons_of_mem _ hm)) a o h
+        · exact ih _ hs.2 (fun k' st' hm => hr k' st' (List.mem_cons_of_mem _ hm)) hw a ep o h
       | clear r =>
         simp only [runOps] at h
-        exact ih _ (m.clear_inv hinv r) (fun k' st' hm => hr k' st' (List.mem_cons_of_mem _ hm)) a o h
-  exact gen ops Mgr.init (by intro e he; simp [Mgr.init] at he) hr
+        exact ih _ (m.clear_inv hinv r) (fun k' st' hm => hr k' st' (List.mem_cons_of_mem _ hm)) hw a ep o h
+      | rewind r =>
+        simp only [runOps] at h
+        exact ih _ (m.rewind_inv r hw.1) (fun k' st' hm => hr k' st' (List.mem_cons_of_mem _ hm)) hw.2 a ep o h
+  exact gen ops Mgr.init (by intro e he; simp [Mgr.init] at he) hr hw
 
 /-- test: miner ahead (query r+1 before its clear) and a stale voter (query r after it) -/
-example : runOps Mgr.init [.clear 40, .query ⟨40, 1, 1⟩ true, .query ⟨41, 1, 1⟩ true, .clear 41, .query ⟨41, 1, 1⟩ true,
-    .query ⟨40, 1, 2⟩ true, .query ⟨41, 1, 2⟩ true]
-    = [(⟨40, 1, 1⟩, ⟨40, 1, 1⟩), (⟨41, 1, 1⟩, ⟨41, 1, 1⟩), (⟨41, 1, 1⟩, ⟨41, 1, 1⟩), (⟨40, 1, 2⟩, ⟨40, 1, 2⟩), (⟨41, 1, 2⟩, ⟨41, 1, 2⟩)] := by
+example : (runOps Mgr.init [.clear 40, .query ⟨40, 1, 1⟩ true, .query ⟨41, 1, 1⟩ true, .clear 41, .query ⟨41, 1, 1⟩ true,
+    .query ⟨40, 1, 2⟩ true, .query ⟨41, 1, 2⟩ true]).all (fun e => decide (e.2.2 = ⟨e.1, e.2.1⟩)) = true := by
+  decide
+
+/-- test: rounds 40, 41, head rewound to round 40 on another branch, round 41 again: fresh credentials -/
+example : (runOps Mgr.init [.clear 40, .query ⟨40, 1, 2⟩ true, .clear 41, .query ⟨41, 1, 2⟩ true, .rewind 40,
+    .query ⟨40, 1, 2⟩ true, .clear 41, .query ⟨41, 1, 2⟩ true]).all (fun e => decide (e.2.2 = ⟨e.1, e.2.1⟩)) = true := by
+  decide
+
+/-- test (why `rewindsMove` is a hypothesis): a branch switch notified with the manager's OWN round is not noticed by
+    `ClearStepView` (`== sm.round` ⇒ return): the view of the old branch is served -/
+example : runOps Mgr.init [.clear 40, .query ⟨40, 1, 2⟩ true, .rewind 40, .query ⟨40, 1, 2⟩ true]
+    = [(⟨40, 1, 2⟩, 0, ⟨⟨40, 1, 2⟩, 0⟩), (⟨40, 1, 2⟩, 1, ⟨⟨40, 1, 2⟩, 0⟩)] := by
   decide
 
 /-! ## 7b. numerics of the model: the rounding primitive
